@@ -72,7 +72,11 @@ func run(c *hc.Ctx) {
 				}
 			}); msg != "" {
 				first := strings.SplitN(msg, "\n", 2)[0]
-				c.Fail("panic:settle:"+first, "Settle panicked: "+first, map[string]any{"rule": ruleNames[rule], "P": P.String()})
+				pk := "panic:settle:" + first
+				if hc.OverlappingEdges(cp) {
+					pk += "+overlapping-edges"
+				}
+				c.Fail(pk, "Settle panicked: "+first, map[string]any{"rule": ruleNames[rule], "P": P.String()})
 				continue
 			}
 			// open result subpaths are polylines (the library keeps open subject subpaths open): for the
